@@ -335,6 +335,66 @@ def run(chk):
     chk.floor("C06-D7.lostwrite", nloops, 200, "range-for loops examined")
     chk.ob("C06-D7.lostwrite", "(library)", "%d range-for loops: none writes to a by-value loop variable" % nloops, True, "")
 
+    # ------------------------------------------------------------------ D8 order of serialised lists
+    chk.rule("C06-D8.listorder", "a std::forward_list restored with emplace_front / push_front comes back reversed, so its writer must emit the elements in reverse (through makeReverseReferenceVector); "
+                                 "per element type the writer's direction equals the reader's (the list order decides ties in the candidate ordering and the bytes of a second write)")
+    import re
+    readers_dir, writers_dir = {}, {}
+    for fn in db.all_functions(["SparseGrids/tsgDConstructGridGlobal.hpp", "SparseGrids/tsgDConstructGridGlobal.cpp"]):
+        ios = [c for c in fn.calls() if (callee(c) or "").startswith("TasGrid::IO::")]
+        if not ios:
+            continue
+        is_reader = any(short(callee(c) or "").startswith("read") for c in ios)
+        is_writer = any(short(callee(c) or "").startswith("write") for c in ios)
+        if is_reader:
+            for c in fn.calls():
+                cal = callee(c) or ""
+                m = re.match(r"std::forward_list<(.*)>::(emplace_front|push_front|emplace_after|insert_after)$", cal)
+                if m and any(a.get("k") in ("ForStmt", "WhileStmt", "CXXForRangeStmt") for a in fn.ancestors(c)):
+                    readers_dir.setdefault(short(m.group(1)), []).append((fn, c, "reversing" if m.group(2).endswith("front") else "keeping"))
+        if is_writer:
+            for st in fn.walk():
+                if st.get("k") != "CXXForRangeStmt" or st.get("range") is None:
+                    continue
+                if not any((callee(x) or "").startswith("TasGrid::IO::write") for x in walk(st.get("body"))):
+                    continue
+                rng = strip(st["range"])
+                rt = rng.get("t", "") or ""
+                elem, direction = None, None
+                m = re.search(r"forward_list<([^<>]*(?:<[^<>]*>)?[^<>]*)>", rt)
+                if m:
+                    elem, direction = short(m.group(1).strip()), "forward"
+                else:
+                    # a vector of references produced by makeReverseReferenceVector(list)
+                    src = None
+                    if rng.get("k") == "DeclRefExpr" and rng.get("did") is not None:
+                        d = next((v for v in fn.locals().values() if v.get("did") == rng["did"]), None)
+                        ini = [c for c in (d or {}).get("c", []) if isinstance(c, dict)]
+                        src = strip(ini[0]) if ini else None
+                    elif rng.get("k") == "CallExpr":
+                        src = rng
+                    if src is not None and src.get("k") == "CallExpr" and (callee(src) or "").endswith("makeReverseReferenceVector"):
+                        at = (strip(call_args(src)[0]) or {}).get("t", "")
+                        m2 = re.search(r"forward_list<([^<>]*(?:<[^<>]*>)?[^<>]*)>", at)
+                        if m2:
+                            elem, direction = short(m2.group(1).strip()), "reversed"
+                if elem:
+                    writers_dir.setdefault(elem, []).append((fn, st, direction))
+    nlist = 0
+    for elem in sorted(set(readers_dir) | set(writers_dir)):
+        rs, wsd = readers_dir.get(elem, []), writers_dir.get(elem, [])
+        if not rs or not wsd:
+            continue
+        for fn, st, direction in wsd:
+            nlist += 1
+            chk.saw(fn)
+            rdir = {d for _, _, d in rs}
+            ok = (direction == "reversed") == (rdir == {"reversing"}) and len(rdir) == 1
+            chk.ob("C06-D8.listorder", fn.key, "list of %s written %s, restored by %s" % (elem, direction, "/".join(sorted(rdir))), ok, fn.loc(st),
+                   "" if ok else "after write + read the list is in the opposite order: ties between equally weighted tensors are broken differently and a second write differs",
+                   "reverse on exactly one side")
+    chk.floor("C06-D8.listorder", nlist, 2, "serialised forward_list element types (both modes)")
+
     # ------------------------------------------------------------------ D6 precision
     nprec = 0
     for wname, _ in PAIRS:
